@@ -19,6 +19,7 @@ POSITIONS = [
     "properties", "items", "tuple_items", "additionalItems", "contains", "patternProperties", "additionalProperties",
     "propertyNames", "dependencies", "anyOf", "oneOf", "allOf", "not",
     "cls_additionalProperties", "cls_patternProperties", "cls_dependencies", "cls_propertyNames", "nested_deep",
+    "additionalItems_single_items", "additionalItems_no_items", "array_additionalItems_single", "contains_no_items", "additionalProperties_with_props",
 ]
 
 
@@ -39,6 +40,16 @@ def link(src, dst, pos, j):
         put(Element(items=[Integer()], additionalItems=dst))
     elif pos == "contains":
         put(Element(contains=dst))
+    elif pos == "additionalItems_single_items":
+        put(Element(items=Integer(), additionalItems=dst))
+    elif pos == "additionalItems_no_items":
+        put(Element(additionalItems=dst))
+    elif pos == "array_additionalItems_single":
+        put(Array(Integer(), additionalItems=dst))
+    elif pos == "contains_no_items":
+        put(Array(Element(), contains=dst, additionalItems=False))
+    elif pos == "additionalProperties_with_props":
+        put(Element(properties={"k": Property(Integer())}, patternProperties={"^z": Integer()}, additionalProperties=dst))
     elif pos == "patternProperties":
         put(Element(patternProperties={"^x": dst}))
     elif pos == "additionalProperties":
@@ -175,7 +186,7 @@ def _edge_dict(pairs, fixed=None):
 def harnesses(ctx) -> List[H]:
     hs: List[H] = []
     off3 = [(i, j) for i in range(3) for j in range(3) if i != j]
-    quick_pos = {"properties", "items", "additionalProperties", "anyOf", "not", "cls_patternProperties", "dependencies"}
+    quick_pos = {"properties", "items", "additionalProperties", "anyOf", "not", "cls_patternProperties", "dependencies", "additionalItems_single_items", "additionalItems_no_items", "array_additionalItems_single"}
     for pos in POSITIONS:
         tier = "quick" if pos in quick_pos else "thorough"
         # n=3, all off-diagonal edges symbolic, roots symbolic (non-empty)
